@@ -162,12 +162,14 @@ class Lexer:
                         while self._current() and self._current() != "}":
                             hex_chars += self._advance()
                         self._advance()  # }
+                        braced = True
                     else:
                         hex_chars = ""
                         for _ in range(4):
                             hex_chars += self._advance()
+                        braced = False
                     code = _hex_value(hex_chars)
-                    if code is None:
+                    if code is None or (not braced and len(hex_chars) != 4):
                         raise JSSyntaxError(
                             f"Invalid unicode escape: \\u{hex_chars}",
                             esc_line,
